@@ -260,7 +260,16 @@ def r02_2(ctx, prog, crate, rec):
                   [cb.path, "snapshot-reads-current-thread-tally"], "snapshot does not read try_current()", cb.where(0))
         allowed = ("ThreadAllocInfo::try_current", "AtomicFlag::get", "NonNull::as_ptr", "mut_ptr::read",
                    "NonNull::as_ref", "clone")
-        extra = [n for n in names if not n.endswith(allowed)]
+        def leaf(n, depth=0):
+            # a crate-local function whose whole callee closure is crate-local and call-free at the leaves (e.g. the
+            # all-zero constructor ThreadAllocInfo::new -> AllocOpMap::new) cannot allocate or tally
+            lb = prog.bodies.get((b.crate, n, -1))
+            if lb is None or depth > 4:
+                return False
+            if any(lb.term(x)["k"] == "drop" for x in lb.live):
+                return False
+            return all(leaf(c.callee, depth + 1) for c in lb.live_calls())
+        extra = [n for n in names if not n.endswith(allowed) and not leaf(n)]
         ctx.check(not extra, "R02.2c", [cb.path, "snapshot-foreign-calls"] + extra,
                   "the snapshot helper calls %s" % extra, cb.where(0))
 
